@@ -202,6 +202,24 @@ def _pool_init():
 CRASHES = []          # items whose worker process died (e.g. an XLA compiler CHECK failure): skipped, reported in evidence
 
 
+import contextlib
+
+
+@contextlib.contextmanager
+def host_devices(n=4):
+    """Worker processes spawned inside this block see `n` XLA host-platform (CPU) devices, so that a pmap over several
+    devices is a real one.  (The flag must come first: XLA stops parsing XLA_FLAGS at the first token it does not know.)"""
+    old = os.environ.get("XLA_FLAGS")
+    os.environ["XLA_FLAGS"] = "--xla_force_host_platform_device_count=%d" % n + ((" " + old) if old else "")
+    try:
+        yield
+    finally:
+        if old is None:
+            del os.environ["XLA_FLAGS"]
+        else:
+            os.environ["XLA_FLAGS"] = old
+
+
 def pmap(fn, items, procs=None, chunksize=1, crash_value=([], 0), split=None):
     """Map `fn` over items in spawned worker processes (fork is unsafe once jax is imported).
 
